@@ -18,6 +18,8 @@ CLAIM = (
     "arm, minimum + (maximum - minimum) copies (bounded), one looped copy (minimum 0, unbounded) or minimum - 1 copies and one looped "
     "copy (unbounded), each a fresh translation; (7) the `.*$` shortcut drops the last two terms only under a guard requiring dot, "
     "quantified, minimum 0, no maximum."
+    " SKIPS: the loops of the functions in scope have no more `continue`, `break` or in-loop `return` statements than the reference "
+    "read on the unchanged tree (baselines/skips.json): a new skip means elements that were handled are no longer handled."
 )
 NOTE = (
     "Trusted base: instruction classes recognised by name (Instruction*), label fields by the suffix `target`. Known finding: "
@@ -47,6 +49,13 @@ def run(ctx) -> None:
     seq.check_sequence(ctx, p.func(f"{RV}:translate"), "SEQ", ["transform", "_relabel_in_place", "_remove_noop_in_place"], lambda n: n.kind == "return")
     anchor.check_anchor_agreement(ctx, "ANCHOR-ATOMS")
     _check_revm_preconditions(ctx)
+    ctx.rule("SKIPS", "the loops of the functions in scope have no more continue/break/return-in-loop statements than the reference read on the unchanged tree", floor=3)
+    from ..rules import skips as _skips
+    _base = _skips.load_baseline()
+    for _m in ctx.p.modules.values():
+        if _m.name in ("aas_core_codegen.intermediate.revm", "aas_core_codegen.cpp.lib._generate_pattern"):
+            for _f in _m.functions.values():
+                _skips.check_skips(ctx, _f, "SKIPS", _base)
 
 
 def _check_labels(ctx) -> None:
